@@ -266,7 +266,12 @@ func c14By(r *core.Run, p *core.Prog) {
 	}
 	n := 0
 	var visit func(list []ast.Stmt, sortC, dirC []string)
-	closure := func(fl *ast.FuncLit, sortC, dirC []string, asc bool) {
+	type cmpFn struct {
+		Type *ast.FuncType
+		Body *ast.BlockStmt
+		pos  token.Pos
+	}
+	closure := func(fl *cmpFn, sortC, dirC []string, asc bool) {
 		n++
 		if len(dirC) == 0 {
 			dirC = []string{""}
@@ -274,7 +279,7 @@ func c14By(r *core.Run, p *core.Prog) {
 		for _, sc := range sortC {
 			for _, dc := range dirC {
 				id := fmt.Sprintf("By:%s:%s:%s", sc, dc, map[bool]string{true: "asc", false: "desc"}[asc])
-				where := p.Rel(fl.Pos())
+				where := p.Rel(fl.pos)
 				want, known := wantFields[sc+"|"+dc]
 				if !known {
 					r.Check(rule, id, where, false, "no documented sort key for this (sort, direction) position")
@@ -319,6 +324,7 @@ func c14By(r *core.Run, p *core.Prog) {
 				fieldsIn := func(e ast.Expr, base types.Object) []string {
 					m := map[string]bool{}
 					onlyBase := true
+					e = resolveLocal(info, fl.Body, e) // a key hoisted into a local of the comparator
 					core.Walk(e, false, func(x ast.Node) bool {
 						if id, ok := x.(*ast.Ident); ok {
 							if o := info.Uses[id]; o == e1 || o == e2 {
@@ -446,11 +452,21 @@ func c14By(r *core.Run, p *core.Prog) {
 				continue
 			}
 			if rs, ok := nd.(*ast.ReturnStmt); ok && len(rs.Results) == 1 {
-				fl, isLit := resolveLocal(info, f.Decl.Body, rs.Results[0]).(*ast.FuncLit)
-				if !isLit || sc == "" || !ascKnown {
+				var fl *cmpFn
+				switch rv := ast.Unparen(resolveLocal(info, f.Decl.Body, rs.Results[0])).(type) {
+				case *ast.FuncLit:
+					fl = &cmpFn{rv.Type, rv.Body, rv.Pos()}
+				case *ast.Ident:
+					if fo, ok := info.Uses[rv].(*types.Func); ok {
+						if h := p.FnOf(fo); h != nil {
+							fl = &cmpFn{h.Decl.Type, h.Decl.Body, h.Decl.Pos()}
+						}
+					}
+				}
+				if fl == nil || sc == "" || !ascKnown {
 					continue
 				}
-				key := fmt.Sprintf("%d|%s|%s|%v", fl.Pos(), sc, dc, asc)
+				key := fmt.Sprintf("%d|%s|%s|%v", fl.pos, sc, dc, asc)
 				if seenPos[key] {
 					continue
 				}
